@@ -92,6 +92,9 @@ impl Client {
                 let z = (j * self.blk).min(self.content.len());
                 let d = Packet::Data { block_num: (j % 65536) as u16, data: self.content[a..z].to_vec() };
                 let _ = self.sock.send_to(&d.serialize().unwrap(), tid);
+                if (j - lo) % 32 == 31 {
+                    std::thread::sleep(Duration::from_millis(1));
+                }
             }
             let until = std::time::Instant::now() + Duration::from_millis(500);
             loop {
@@ -158,7 +161,7 @@ impl Client {
 pub fn run_conc(toks: &[&str], dir: &Path) -> String {
     let flags = toks[1];
     let dup: u8 = toks[2].parse().unwrap();
-    let root: PathBuf = dir.join("sb");
+    let root: PathBuf = fresh_sandbox(dir);
     build_tree_pub(&root, toks[3]);
     let listener = start_server_pub(&root, flags, dup);
     let single = flags.contains('s');
@@ -194,16 +197,18 @@ pub fn run_conc(toks: &[&str], dir: &Path) -> String {
                 clients[i].round(listener, single, &root);
             } else if let Some(rest) = t.strip_prefix("iL:") {
                 intruder.send_to(&unhex(rest), listener).unwrap();
-                let r = recv(&intruder, 60);
+                let r = recv(&intruder, 400); // the listener always answers: waiting longer costs nothing unless it does not
                 out.push(format!("iL={}", match r { Some((b, f)) => format!("{}@{}", hex(&b[..4.min(b.len())]), if f == listener { "L" } else { "E" }), None => "none".into() }));
             } else if let Some(rest) = t.strip_prefix("iT") {
                 let (i, h) = rest.split_once(':').unwrap();
                 let i: usize = i.parse().unwrap();
-                let refused = clients[i].done && (clients[i].result.starts_with("error") || clients[i].result == "none");
+                // a refused request has no transfer endpoint; the endpoint of a finished multi-port transfer is closed and
+                // its port may belong to anybody by now: nothing is sent there
+                let refused = clients[i].done && (!single || clients[i].result.starts_with("error") || clients[i].result == "none");
                 if let (Some(tid), false) = (clients[i].tid, refused) {
                     let target = if single { listener } else { tid };
                     intruder.send_to(&unhex(h), target).unwrap();
-                    let r = recv(&intruder, 60);
+                    let r = recv(&intruder, if single { 400 } else { 60 });
                     out.push(format!("iT={}", match r { Some((b, f)) => format!("{}@{}", hex(&b[..4.min(b.len())]), if f == listener { "L" } else { "E" }), None => "none".into() }));
                 } else {
                     out.push("iT=skipped".into());
